@@ -16,7 +16,7 @@ from vlib.verdict import Case
 
 PROPERTY = 'C01'
 MANIFEST = {
- 'level_text': 'Lean 4 theorems about a model of Limnoria\'s capability gate, for all database states, callers, channels, plugin names and command paths: the prefix loop of _callCommand allows exactly when every one of its checks (Y, P, P.X, P.X.Y) allows (gate_allow_iff), and a plugin whose name does not lower-case to its canonical name is refused wholesale; a caller for whom -Y, -P, -P.X or -P.X.Y answers true, globally or scoped to the message\'s channel, never reaches the command (gate_forbidden, gate_forbidden_channel); a caller who is not a recognised non-ignored owner is refused every command of a plugin named Owner whenever -owner is a default capability, and the reply names owner (gate_antiowner, gate_antiowner_reply), same for any plugin P with -p among the defaults (gate_antiplugin, Admin instance); a wrapped command with owner/admin/checkCapability/checkCapabilityButIgnoreOwner/op/halfop/voice/checkChannelCapability at top level of its spec is reached only if that check answered true for the channel getChannel chose, whatever the other converters do (converter_guard*, chancap_first_channel, invoke_body_requires, owner_plugin_body_needs_owner, guarded_body_needs_capability); a caller ignored globally (ignore flag, ignores database, defaultIgnore) or by the recipient channel (ignore, ban, lobotomy) is dropped before anything is tokenised, trusted users never (ignored_silent, channel_ignored_silent, received_dispatch_requires, ...); Config writes pass only with owner, or #chan,op when every group on the path is op-settable, never for read-only names (config_write_guard); assigning supybot.capabilities always leaves -owner in and owner out (defaults_antiowner_not_owner); the lazily created channel record changes no decision (gate_touch). Kernel-checked. The command inventory (every bundled command with its wrap spec), the committed list of privileged commands, the call graph around _callCommand/Proxy, the mutators of the default capability set and the shape of the gate code are regenerated from /repo on every run and checked against committed obligations (required_present, required_rows_guarded, inventory_names_valid, plugin_names_canonical, callgraph_ok, defaults_mutators_ok, gate_shape_ok, shipped_defaults_ok). The model is tied to the code by a differential run on a live bot (real Irc, real plugins, production capability path, world.testing off): every command x caller role x addressing form x wrapper (incl. Aka, Alias, apply, let, cif, scheduler replays fired by a virtual clock, also after the scheduling caller lost the capability), configuration writes, assignments of supybot.capabilities, ignore variants; the same run evaluates the property statement itself on the implementation (state snapshot unchanged, command body not run, at most one error reply, silence when ignored).',
+ 'level_text': 'Lean 4 theorems about a model of Limnoria\'s capability gate, for all database states, callers, channels, plugin names and command paths: the prefix loop of _callCommand allows exactly when every one of its checks (Y, P, P.X, P.X.Y) allows (gate_allow_iff), and a plugin whose name does not lower-case to its canonical name is refused wholesale; a caller for whom -Y, -P, -P.X or -P.X.Y answers true, globally or scoped to the message\'s channel, never reaches the command (gate_forbidden, gate_forbidden_channel); a caller who is not a recognised non-ignored owner is refused every command of a plugin named Owner whenever -owner is a default capability, and the reply names owner (gate_antiowner, gate_antiowner_reply), same for any plugin P with -p among the defaults (gate_antiplugin, Admin instance); a wrapped command with owner/admin/checkCapability/checkCapabilityButIgnoreOwner/op/halfop/voice/checkChannelCapability at top level of its spec is reached only if that check answered true for the channel getChannel chose, whatever the other converters do (converter_guard*, chancap_first_channel, invoke_body_requires, owner_plugin_body_needs_owner, guarded_body_needs_capability); a caller ignored globally (ignore flag, ignores database, defaultIgnore) or by the recipient channel (ignore, ban, lobotomy) is dropped before anything is tokenised, trusted users never (ignored_silent, channel_ignored_silent, received_dispatch_requires, ...); Config writes pass only with owner, or #chan,op when every group on the path is op-settable, never for read-only names (config_write_guard); assigning supybot.capabilities always leaves -owner in and owner out (defaults_antiowner_not_owner); the lazily created channel record changes no decision (gate_touch). Kernel-checked. The command inventory (every bundled command with its wrap spec), the committed list of privileged commands, the call graph around _callCommand/Proxy, the mutators of the default capability set and the shape of the gate code are regenerated from /repo on every run and checked against committed obligations (required_present, required_rows_guarded, inventory_names_valid, plugin_names_canonical, callgraph_ok, defaults_mutators_ok, gate_shape_ok, shipped_defaults_ok). The model is tied to the code by a differential run on a live bot (real Irc, real plugins, production capability path, world.testing off): every command x caller role x addressing form x wrapper (incl. Aka, Alias, apply, let, cif, callers recognised by a password login that later times out / is dropped / whose hostmask is removed, scheduler replays fired by a virtual clock, also after the scheduling caller lost the capability), configuration writes, assignments of supybot.capabilities, ignore variants; the same run evaluates the property statement itself on the implementation (state snapshot unchanged, command body not run, at most one error reply, silence when ignored).',
  'level_note': 'Trusted: Lean kernel; axioms propext/Classical.choice/Quot.sound only; harness/extractors/commands.py; the correspondence harness (role construction, database copy sent to the model, snapshot, reply classification, callCommand shim and body logging) and the C03 capability model it builds on (owned by C03; every gate decision here re-checks it against the real ircdb.checkCapability). Modelled and proved: checkCommandCapability, the _callCommand prefix loop, the capability converters + getChannel + the sequential spec driver, ircdb.checkIgnored / IgnoresDB.checkIgnored / IrcChannel.checkIgnored as used by PluginMixin.__call__ and Owner.doPrivmsg, Config.getCapability/isReadOnly/checkCanSetValue, DefaultCapabilities.setValue. Exercised only (not proved): the bodies of the ~500 commands; converters other than the capability ones (an arbitrary oracle in the theorems; assumed free of privileged side effects, which the snapshot comparison on refused calls would show); tokenising, addressing, nesting, alias expansion (they only produce the (prefix, channel, plugin, path, args) tuple the gate is a function of; C13/C14); threads; the flood guard of Owner.doPrivmsg (switched off). Not claimed: that every command which OUGHT to be privileged carries a converter (the committed list Required.lean states which do); Owner.defaultcapability can remove -owner from the defaults (owner-only, inventory obligation defaults_mutators_ok; C02). A prefix that is not nick!user@host is looked up as a user name (only a server can send one; exercised as role byname, sender recognition is C04).',
  'technique': 'Lean 4 proof (case analysis over the decision procedure, induction over the check list / spec) + inventory extraction + differential correspondence on a live bot',
  'design_ref': 'DESIGN.md §6 C01',
@@ -295,7 +295,10 @@ def snapshot(b, light=False):
     if _FRESH_CHANNEL is None:
         _FRESH_CHANNEL = _preserve(ircdb.IrcChannel())
     s = {}
-    s['users'] = sorted((id, _preserve(u), tuple(u.auth)) for id, u in ircdb.users.users.items())
+    # logins that timed out are dropped lazily by IrcUser.checkHostmask: canonicalised away
+    tmo = conf.supybot.databases.users.timeoutIdentification(); nowu = time.time()
+    s['users'] = sorted((id, _preserve(u), tuple((w, h) for w, h in u.auth if not (tmo and w + tmo < nowu)))
+                        for id, u in ircdb.users.users.items())
     s['channels'] = sorted((n, p) for n, p in ((n, _preserve(c)) for n, c in ircdb.channels.channels.items()) if p != _FRESH_CHANNEL)
     # lazily expired entries are canonicalised away (IgnoresDB.checkIgnored deletes them when it meets them)
     nowt = time.time()
@@ -1013,6 +1016,110 @@ def explore(ctx, b, w, table, required, n_extra):
                 cases.append(c)
                 lines.append('ignored\t' + wire.enc(prefix))
                 pend.append((c, lambda o, ign: 'silent' if (o.startswith('1') or o.startswith('crash')) else 'ran'))
+
+    # ================= callers recognised by LOGIN (identify) and by a hostmask that is later removed =================
+    # histories: not identified -> identify -> commands (caches warm) -> the login times out / unidentify /
+    # the registered hostmask is removed -> the same commands must be refused again
+    if 'User' in have and 'VtGate' in have:
+        TMO = 100
+        conf.supybot.databases.users.timeoutIdentification.setValue(TMO)
+        ul = ircdb.users.newUser(); ul.name = 'vlog'; ul.addCapability('owner'); ul.setPassword('pw')
+        ul.addHostmask('log!l@home.host'); ircdb.users.setUser(ul)
+        AWAY = 'log!l@away.host'; HOME = 'log!l@home.host'
+        PROBES = [('VtGate', ('vtowner',), [], True), ('VtGate', ('vtadmin',), [], True), ('VtGate', ('vtop',), [CHAN], True),
+                  ('Owner', ('flush',), [], False), ('Admin', ('channels',), [], False), ('Owner', ('defaultcapability',), ['add', 'foo'], False)]
+        PROBES = [x for x in PROBES if x[0] in have]
+        def login_probe(stage, prefix, must):
+            # must: 'allow' | 'deny'
+            for pi, (plugin, path, pargs, safe) in enumerate(PROBES):
+                form = ['char', 'private'][pi % 2]
+                text, cmd, args = command_text(plugin, path, pargs, 'direct', False)
+                try:
+                    rc, rcbs = route(cmd + args)
+                    if not (len(rcbs) == 1 and rcbs[0].name() == plugin and list(rc) == cmd):
+                        text, cmd, args = command_text(plugin, path, pargs, 'direct', True)
+                except Exception:
+                    continue
+                target, full, mchan = address(form, text)
+                spec, ae = row_spec(plugin, path, loaded[(plugin, path)])
+                real = safe or must == 'deny'
+                last_dump[0] = None
+                send_db()
+                lines.append('ignored\t' + wire.enc(prefix)); pend.append(None)
+                tk = (plugin, tuple(cmd))
+                Obs.execute = (lambda p_, c_, real=real, tk=tk: real if (p_, c_) == tk else False)
+                before = snapshot(b)
+                out = deliver(b, prefix, target, full)
+                changed = snap_diff(before, snapshot(b))
+                gate_hit = tk in Obs.gate
+                body_ran = (plugin, path) in Obs.bodies
+                cls = classify(out)
+                if gate_hit:
+                    impl = 'gate:allow' if not real else ('gate:allow|body' if body_ran else ('gate:allow|nocap:' + cls[1] if cls[0] == 'nocap' else 'gate:allow|stopped'))
+                elif cls[0] == 'nocap':
+                    impl = 'gate:denied:' + cls[1]
+                else:
+                    impl = 'gate:none|' + cls[0]
+                ok = True; msg = ''
+                if must == 'deny':
+                    problems = []
+                    if body_ran: problems.append('the command body ran')
+                    if gate_hit and not any(k in ('cap', 'chancap') for k, _ in spec): problems.append('_callCommand let the call through')
+                    if changed: problems.append('state changed: %s' % changed)
+                    if cls[0] not in ('nocap', 'error', 'help'): problems.append('output is not a single error reply: %r' % (cls,))
+                    if problems:
+                        ok = False
+                        msg = 'history %r: caller %s is no longer recognised as the owner and calls %s %s as %r; but %s' % (stage, prefix, plugin, ' '.join(path), full, '; '.join(problems))
+                elif must == 'allow' and not gate_hit:
+                    ok = False
+                    msg = 'history %r: caller %s is recognised as the owner (live login / registered hostmask) but %s %s was refused: %r' % (stage, prefix, plugin, ' '.join(path), cls)
+                c = Case({'op': 'login', 'stage': stage, 'plugin': plugin, 'path': list(path), 'prefix': prefix, 'target': target, 'text': full},
+                         impl=impl, oracle_ok=ok, oracle_msg=msg, kind='login',
+                         tags=['login', 'login:' + stage, 'oracle:' + must] + (['real'] if real else []))
+                cases.append(c)
+                DEBUG[id(c)] = [str(m).strip() for m in out]
+                lines.append('invoke\t%s\t%s\t%s\t%s\t%s\t%d\t%s' % (wire.enc(prefix), wire.enc_opt(mchan), wire.enc(plugin), wire.enc_list(cmd),
+                                                                       enc_spec(spec), 1 if ae else 0, wire.enc_list(args)))
+                def fill(o, ign, real=real):
+                    if ign.startswith('1') or ign.startswith('crash'):
+                        return 'silent'
+                    f = o.split('\t'); i = f.index('|'); g = f[:i]; oc = f[i + 1:]
+                    if g[0] == 'denied': return 'gate:denied:' + wire.dec(g[1])
+                    if g[0] == 'deniedDefault': return 'gate:denied:True'
+                    if g[0] == 'crash': return 'gate:crash'
+                    if not real: return 'gate:allow'
+                    if oc[0] == 'body': return 'gate:allow|body'
+                    if oc[0] == 'noCapability': return 'gate:allow|nocap:' + wire.dec(oc[1])
+                    return 'gate:allow|stopped'
+                pend.append((c, fill))
+        def say(prefix, text):
+            Obs.execute = None
+            with contextlib.redirect_stdout(io.StringIO()):
+                return classify(deliver(b, prefix, NICK, text))
+        for rnd in range(3 if ctx.thorough else 1):
+            login_probe('before-identify', AWAY, 'deny')
+            r1 = say(AWAY, 'identify vlog pw')
+            login_probe('identified', AWAY, 'allow')                 # also warms _hostmaskCache
+            Clock.offset += TMO // 2
+            login_probe('identified-half-timeout', AWAY, 'allow')
+            Clock.offset += TMO + 50
+            login_probe('login-timed-out', AWAY, 'deny')
+            say(AWAY, 'identify vlog pw')
+            login_probe('re-identified', AWAY, 'allow')
+            say(AWAY, 'unidentify')
+            login_probe('unidentified', AWAY, 'deny')
+            # recognised by registered hostmask, which is then removed (by the user himself)
+            login_probe('by-hostmask', HOME, 'allow')
+            say(HOME, 'hostmask remove vlog ' + HOME)
+            login_probe('hostmask-removed', HOME, 'deny')
+            u3 = user_by_name(b, 'vlog'); u3.addHostmask(HOME); ircdb.users.setUser(u3)
+            # login from AWAY, then the timeout is reached while the caller keeps talking from HOME too
+            say(AWAY, 'identify vlog pw')
+            login_probe('identified-again', AWAY, 'allow')
+            Clock.offset += TMO + 50
+            login_probe('home-after-timeout', HOME, 'allow')
+            login_probe('away-after-timeout', AWAY, 'deny')
+        conf.supybot.databases.users.timeoutIdentification.setValue(0)
 
     # ================= ignored in one channel only (IrcChannel ignores / bans / lobotomy) =================
     if 'VtGate' in have:
